@@ -115,11 +115,60 @@ def generate_straddle(rng, run_seed):
     return generate_tight(rng, run_seed)
 
 
+def generate_multiwin(rng, run_seed):
+    """a round with several simultaneous winners: u outsiders over the quota (mostly on bullet ballots, so their transfer is
+    empty) and coalition member A; the coalition's second member B reaches the quota only through A's surplus, and is the
+    lowest candidate without it.  m = u + 3, k = 2, N inside the Droop window for the chosen threshold q."""
+    for _ in range(60):
+        q = rng.randint(4, 12)
+        u = rng.randint(1, 2)
+        a = rng.randint(q + 2, 2 * q - 1)
+        b = 2 * q - a
+        R = rng.randint(q * (u + 2) - (u + 4), q * (u + 2) - 1)
+        if b + 1 > q - 1:
+            continue
+        c, d = rng.randint(b + 1, q - 1), rng.randint(b + 1, q - 1)
+        sx = R - c - d
+        if sx < u * q:
+            continue
+        xs = [sx] if u == 1 else None
+        if u == 2:
+            x1 = rng.randint(q, sx - q)
+            xs = [x1, sx - x1]
+        m = u + 3
+        n = u + 4
+        names, fam = G.gen_names(rng, n)
+        A, B, C, D = names[:4]
+        X = names[4:]
+        ballots = [([[A], [B]] + [[z] for z in rng.sample([C, D] + X, rng.randint(0, 2))], Fraction(a)),
+                   ([[B], [A]] + [[z] for z in rng.sample([C, D] + X, rng.randint(0, 2))], Fraction(b))]
+        for f, w in ((C, c), (D, d)):
+            tail = rng.sample([z for z in names if z != f], rng.randint(0, 2)) if rng.random() < 0.5 else []
+            ballots.append(([[f]] + [[z] for z in tail], Fraction(w)))
+        for x, w in zip(X, xs):
+            if rng.random() < 0.7:
+                ballots.append(([[x]], Fraction(w)))
+            else:
+                for part in partition(rng, w, 2):
+                    tail = rng.sample([z for z in names if z != x], rng.randint(0, 2))
+                    ballots.append(([[x]] + [[z] for z in tail], Fraction(part)))
+        rng.shuffle(ballots)
+        cands = list(names)
+        rng.shuffle(cands)
+        jp = {"candidates": cands, "ballots": [{"r": r, "w": canon.fs(w)} for r, w in ballots]}
+        kw = {"m": m, "quota": "droop", "simultaneous": rng.random() < 0.8, "tiebreak": rng.choice(["random", "borda", "first_place"]), "transfer": G.wchoice(rng, [("fractional", 3), ("random", 1)])}
+        return {"rule": "STV", "kw": kw, "profile": jp, "shape": {"n": n, "names": fam, "wfam": "multiwin", "planted": [sorted([A, B])], "nb": len(ballots), "tight": [2, q]},
+                "policies": common.gen_policies(rng, run_seed, kinds=("asc", "desc", "seeded")), "adv_seed": derive(run_seed, "adv") % 10**6}
+    return generate_tight(rng, run_seed)
+
+
 def generate(run_seed, tier):
     rng = stream(run_seed, "gen")
     u = rng.random()
     if u < 0.08:
         return generate_straddle(rng, run_seed)
+    if u < 0.14:
+        return generate_multiwin(rng, run_seed)
     if u < 0.4:
         return generate_tight(rng, run_seed)
     n = G.wchoice(rng, [(2, 1), (3, 3), (4, 4), (5, 4), (6, 2)])
